@@ -72,6 +72,7 @@ type roundEnv struct {
 	qtmo    time.Duration
 	stop    chan struct{}
 
+	udpSem     chan struct{} // bounds how many UDP clients have a burst in flight
 	slowGate   atomic.Pointer[chan struct{}]
 	udpMatch   atomic.Int64
 	stubCalls  atomic.Int64
@@ -195,6 +196,11 @@ func runRound(r *vlib.Run, rs *roundSpec) {
 	env := &roundEnv{r: r, name: name, spec: rs, qtmo: cfg.QueryTimeout.Duration, stop: make(chan struct{})}
 	first := make(chan struct{})
 	env.slowGate.Store(&first)
+	sem := rs.UDP + rs.DeniedUDP
+	if rs.Tight {
+		sem = 40
+	}
+	env.udpSem = make(chan struct{}, sem)
 
 	var old int64
 	if rs.Tight {
